@@ -7,6 +7,63 @@ VERIF = os.path.dirname(os.path.dirname(os.path.abspath(__file__)))
 SRC = "/tmp/mut"
 
 NEEDS = {
+ "C11g": "a caller whose closed positions total exactly 1 LP base unit",
+ "C11h": "a user with two open positions of different amounts closing the one that is not first in their list",
+ "C11i": "a user with at least two open positions closing one (the shortened list is never written back)",
+ "C12g": "an OpenFlow sending strictly more of the (native) reward denom than it declares",
+ "C12h": "cw20 flow fee, a different cw20 reward token and a flow amount different from the fee amount",
+ "C12i": "an ExpandFlow offering a cw20 token different from the flow's reward asset",
+ "C13g": "a user with exactly 100 unclaimed epochs and a flow active in the 100th",
+ "C13h": "ExpandPosition with receiver: Some(other) where the sender's own weight differs from the receiver's",
+ "C13i": "a user closing a position in a new epoch before the global-weight snapshot is taken",
+ "C14g": "amount/total_share non-terminating in decimal and total_share dividing amount x liquid balance",
+ "C14h": "StableSwap pair with different decimals, second asset offered, execute path",
+ "C14i": "3pool: an earlier swap asked for asset X, no collection, then X offered in a Simulation",
+ "C15g": "a slippage tolerance of exactly 1.0 on a pool with liquidity",
+ "C15h": "3pool deposit whose 2nd and 3rd amounts differ enough to cross the bound",
+ "C15i": "3pool swap with neither belief_price nor max_spread and a spread above 1%",
+ "C17g": "UpdateConfig{deposit_enabled: Some(false)} on a vault whose deposits are enabled",
+ "C17h": "vault with withdrawals paused but deposits enabled (or the reverse), then a withdrawal",
+ "C17i": "a Deposit through the frontend helper into a pool whose deposits are paused",
+ "C18g": "an epoch duration in the window just below one day (e.g. 86_399_999_999_999 ns)",
+ "C18h": "a 3pool whose current amp is above 100_000 ramping to a target above 10^6",
+ "C18i": "a vault over a non-token-factory asset instantiated with invalid fees (e.g. shares summing to 100%)",
+ "C19g": "native-denom pairs whose keys nest as prefixes (uusd / uusdc) and a page ending on the shorter one",
+ "C19h": "CreateTrio for an already registered triple (any permutation)",
+ "C19i": "create -> remove -> query / re-create of a vault",
+ "C20g": "CreateEpoch in a block whose time hits start_time + duration to the nanosecond",
+ "C20h": "an epoch duration longer than one day and NewEpoch between start + 1 day and start + duration",
+ "C20i": "CreateEpoch on the epoch manager between instantiation and genesis",
+ "C01g": "a partial withdrawal by one of several LPs whose pro-rata share of a reserve is fractional (repeatable with dust withdrawals)",
+ "C01h": "uncollected protocol fees that differ between the two assets and a deposit listing the assets in reverse pool order",
+ "C01i": "a native/native pair and a deposit whose second-listed native asset is missing or short",
+ "C02g": "offers of about 1e18 base units or more, or reserve ratios above 1e18 (the quotient is truncated before multiplying)",
+ "C02h": "an earlier swap that left unequal uncollected protocol fees, then a Simulation query",
+ "C02i": "reserve ratio around 1e18 with a nonzero but lossy truncated exchange rate (compute_swap panics)",
+ "C03g": "a post-deposit reserve ratio beyond about 6e17 at amp 1 (the solver stops after 32 steps and returns a too-high D)",
+ "C03h": "a stableswap pair with liquidity, assets listed in reverse pool order, an unbalanced pool or deposit",
+ "C03i": "stableswap pair with decimals[0] < decimals[1], asset[1] offered on the execute path with a belief price",
+ "C04g": "a ramp up to a target in 10*current+1 ..= 10*current+9",
+ "C04h": "a 3pool deposit whose second and third amounts differ, third asset native",
+ "C04i": "3pool swap offering an asset that already has uncollected protocol fees (the way back of a there-and-back swap)",
+ "C05g": "a share price not representable with 18 decimals and deposits of about 1e18 base units or more",
+ "C05h": "flash loan with protocol fee -> CollectProtocolFees -> a deposit",
+ "C05i": "a cw20-asset vault and a borrower depositing the borrowed tokens inside its (single) loan callback",
+ "C06g": "a non-zero burn fee and a loan where burn_share*loan is not an integer (exact repayment of the quote reverts)",
+ "C06h": "a vault whose protocol and flash-loan fee shares differ",
+ "C06i": "a cw20-asset vault plus a borrower whose callback deposits during the loan",
+ "C07g": "a collection made while exactly 1 unit of protocol fee is pending",
+ "C07h": "3pool: swap with fee above the threshold -> CollectProtocolFees -> another swap",
+ "C07i": "a pair with a cw20 asset holding an uncollected fee and a ProvideLiquidity before the next collection",
+ "C08g": "a Bond whose attached coin is smaller than the declared amount",
+ "C08h": "the same address unbonding the same denom twice at the same block time",
+ "C08i": "two unbondings of one denom at different times, withdrawing when only one has matured",
+ "C09g": "an address that claimed before and fully unbonded re-bonding in the same second as a new epoch's start with exactly one pending epoch",
+ "C09h": "UpdateConfig{distribution_asset} mid-history plus a claim while an epoch funded in the old asset is claimable",
+ "C09i": "an epoch holding two assets (old-asset remainder rolled into a new-asset epoch) and any claim on it",
+ "C10g": "active take rate with 1 <= rate * balance < 2",
+ "C10h": "a take rate other than 50% (the recorded amount is the remainder, not the fee)",
+ "C10i": "a registered vault with pending flash-loan fees when NewEpoch runs",
  "C17e": "a pair made of two native coins with deposits paused",
  "C17f": "vault with deposits enabled and withdrawals paused, then a Deposit",
  "C18e": "a high-amp 3pool ramping down and a second (valid) ramp request before the first one ends",
